@@ -27,7 +27,7 @@ NoExpect == [next |-> 0, of |-> 0, ost |-> 0]
 
 NoPool == -2      \* no pending target
 AnyPool == -1     \* target chosen by the runtime (ABT_thread_migrate) / not yet observed
-Mg0 == [pool |-> NoPool, old |-> NoPool, pend |-> NoPool, armed |-> FALSE, must |-> FALSE, ncb |-> 0, able |-> TRUE, cands |-> {}, cred |-> 0, exp |-> 9]
+Mg0 == [pool |-> NoPool, old |-> NoPool, pend |-> NoPool, armed |-> FALSE, must |-> FALSE, ncb |-> 0, able |-> TRUE, cands |-> {}, cred |-> 0, exp |-> 9, infl |-> 0]
 
 HInit == /\ st = [u \in Units |-> "none"] /\ arg = [u \in Units |-> 0] /\ tok = [u \in Units |-> 0]
          /\ cst = [u \in Units |-> 0] /\ starts = [u \in Units |-> 0] /\ inYield = [u \in Units |-> FALSE]
@@ -130,7 +130,8 @@ MigReq(by, u, tgt, has) ==
            ok == st[u] # "done" /\ mg[u].able /\ ~same IN
        mg' = [mg EXCEPT ![u].pend = IF ok THEN tgt ELSE @, ![u].cands = IF ok THEN @ \cup {tgt} ELSE @,
                         ![u].cred = IF ok THEN @ + 1 ELSE @,
-                        ![u].exp = IF st[u] = "done" THEN 9 ELSE IF ~mg[u].able THEN 2 ELSE IF same THEN 1 ELSE 0]
+                        ![u].exp = IF st[u] = "done" THEN 9 ELSE IF ~mg[u].able THEN 2 ELSE IF same THEN 1 ELSE 0,
+                        ![u].infl = @ + 1]
     /\ UNCHANGED <<st, arg, tok, cst, starts, inYield, inpool, expect, rin>>
 \* ret: 0 accepted, 1 rejected: same pool, 2 rejected: not migratable, 3 "no target stream"
 MigRet(by, u, ret) ==
@@ -141,7 +142,8 @@ MigRet(by, u, ret) ==
               [] OTHER -> FALSE                    \* ABT_thread_migrate must find another running stream
        ELSE ret = mg[u].exp \/ (ret = 2 /\ st[u] = "done")   \* (it finished while the call was being made)
     \* armed unless the migration has already been performed meanwhile
-    /\ mg' = [mg EXCEPT ![u].armed = IF ret = 0 THEN mg[u].pend # NoPool ELSE @, ![u].exp = 9]
+    /\ mg' = [mg EXCEPT ![u].armed = IF ret = 0 THEN mg[u].pend # NoPool ELSE @, ![u].exp = 9,
+                         ![u].infl = IF @ > 0 THEN @ - 1 ELSE 0]
     /\ UNCHANGED <<st, arg, tok, cst, starts, inYield, inpool, expect, rin>>
 \* the migration callback: the migration is performed here
 \* Each accepted request raises the request flag once, and the handler runs only when it finds the
@@ -154,7 +156,8 @@ MigCb(u) ==
        THEN \E p \in mg[u].cands :
               mg' = [mg EXCEPT ![u] = [@ EXCEPT !.old = mg[u].pool, !.pool = p, !.ncb = @ + 1, !.must = FALSE, !.cred = @ - 1,
                                               !.pend = IF p = mg[u].pend THEN NoPool ELSE @,
-                                              !.armed = IF p = mg[u].pend THEN FALSE ELSE @,
+                                              \* (an older target was performed: the newest request is binding only once its call has returned)
+                                              !.armed = IF p = mg[u].pend THEN FALSE ELSE (mg[u].infl = 0),
                                               !.cands = IF p = mg[u].pend THEN {} ELSE @ \ {p}]]
        ELSE mg' = [mg EXCEPT ![u].ncb = @ + 1, ![u].cred = @ - 1]
     /\ UNCHANGED <<st, arg, tok, cst, starts, inYield, inpool, expect, rin>>
